@@ -434,3 +434,25 @@ func (a *Addr) typeAt() types.Type {
 	}
 	return t
 }
+
+// typeAtOpaque walks the path through real Go struct types even where the
+// verifier treats an enclosing type as opaque.
+func (a *Addr) typeAtOpaque() types.Type {
+	var t types.Type
+	path := a.Path
+	switch a.Kind {
+	case AElems:
+		t = a.Root
+		path = path[1:]
+	default:
+		t = a.rootValueType()
+	}
+	for _, p := range path {
+		if p.IsIdx {
+			t = t.Underlying().(*types.Array).Elem()
+		} else {
+			t = t.Underlying().(*types.Struct).Field(p.Field).Type()
+		}
+	}
+	return t
+}
